@@ -532,8 +532,11 @@ def run_obligation(ob, scratch, keep_out=False):
     finally:
         if got:
             GATE.release(got)
-        if ob.witness and twin_thread.is_alive():
-            twin_thread.join()
+        if ob.witness:
+            if twin_thread.is_alive():
+                twin_thread.join()
+            if not rec.get("witnesses_reachable") and twin_box.get("status") == "ok":
+                rec["witnesses_reachable"] = sorted(set(twin_box.get("reach", [])))   # recorded also when the main query did not hold
         if not keep_out:
             for suf in (".json", ".gb"):
                 try:
@@ -716,8 +719,11 @@ def write_evidence(prop, tier, recs, wall, violations):
         "wall_s": round(wall, 1),
         "violations": violations,
     }
-    os.makedirs(os.path.join(VERIF, "evidence"), exist_ok=True)
-    json.dump(ev, open(os.path.join(VERIF, "evidence", prop + ".json"), "w"), indent=1)
+    # runs against a scratch copy (VERIF_REPO set by tools/try_mutant.sh) or partial runs (--only) must not replace the
+    # evidence of the registered command
+    evdir = os.path.join(VERIF, "evidence") if (REPO == "/repo" and not os.environ.get("VERIF_PARTIAL")) else "/tmp/verif-evidence-scratch"
+    os.makedirs(evdir, exist_ok=True)
+    json.dump(ev, open(os.path.join(evdir, prop + ".json"), "w"), indent=1)
 
 
 def do_replay(path):
@@ -782,6 +788,8 @@ def main():
         sys.exit(0)
     if not a.prop:
         ap.error("property id required")
+    if a.only or a.prop == "ALL":
+        os.environ["VERIF_PARTIAL"] = "1"
     sys.exit(do_check(a.prop, a.tier, set(x for x in a.only.split(",") if x), a.jobs, a.keep))
 
 
